@@ -97,6 +97,26 @@ Theorem C14_encode_total_before_repair_refuted :
 Proof. exact encode_total_unguarded_refuted_lemma. Qed.
 Print Assumptions C14_encode_total_before_repair_refuted.
 
+(* a connection that joined stops being listed only by unregistering or by being evicted by the hub
+   as a slow reader ...                                                       (proved part, _partial of:
+   "the relay's own stats feeder is listed in every reachable state") *)
+Theorem C14_feeder_always_listed_partial :
+  forall evs id m, joined_as evs id = Some m -> present evs id = false ->
+    exists e, In e evs /\ removes id e.
+Proof. exact leaves_only_by_lemma. Qed.
+Print Assumptions C14_feeder_always_listed_partial.
+
+(* ... and the full statement is false (F15): the feeder is a member of topic stats like any other,
+   a burst of messages on that topic fills its queue and the hub evicts it; it never unregisters,
+   yet it is gone from the listing and nothing restarts it *)
+Theorem C14_feeder_always_listed_refuted :
+  wf_history ex_burst /\ In (Register ex_feeder) ex_burst /\
+  (forall t, ~ In (Unregister (m_id ex_feeder) t) ex_burst) /\
+  present ex_burst (m_id ex_feeder) = false /\
+  map m_id (listed (hub_run ex_burst)) = [2].
+Proof. exact feeder_always_listed_refuted_lemma. Qed.
+Print Assumptions C14_feeder_always_listed_refuted.
+
 (* non-vacuity: a history with odd metadata (quotes, an invalid byte, U+2028, a 4-byte rune), one
    leave and one eviction; the listing encodes, is well-formed, and decodes to two reports whose
    topics and user agents are the sanitized ones *)
